@@ -4,6 +4,7 @@ import (
 	"errors"
 	"fmt"
 	"os"
+	"runtime"
 	"strconv"
 	"time"
 
@@ -61,14 +62,18 @@ func runUnshareFate(cfg *Config) *Result {
 				}
 				// settle: a dying thread disappears from /proc/self/task; a released one stays
 				alive := tid >= 0 && tidAlive(tid)
-				deadline := time.Now().Add(3 * time.Second)
-				for alive && time.Now().Before(deadline) {
+				// a thread that is going to die does so as soon as it is scheduled again; on a busy machine
+				// (other checks running next to this one) that can take longer than on an idle one
+				patience := 300 * time.Millisecond
+				if machineBusy() {
+					patience = 4 * time.Second
+				}
+				t0 := time.Now()
+				for alive && time.Since(t0) < patience {
 					time.Sleep(2 * time.Millisecond)
 					alive = tidAlive(tid)
-					if alive && time.Since(deadline.Add(-3*time.Second)) > 300*time.Millisecond {
-						break // still there after 300 ms: treat as released
-					}
 				}
+				// still there after that: treat as released
 				su := "0"
 				if setupOK {
 					su = "1"
@@ -98,4 +103,17 @@ func runUnshareFate(cfg *Config) *Result {
 	res.sample(lines[0] + " => " + impl[0])
 	res.sample(lines[11] + " => " + impl[11])
 	return res
+}
+
+// machineBusy: the one-minute load average exceeds a third of the processors
+func machineBusy() bool {
+	b, err := os.ReadFile("/proc/loadavg")
+	if err != nil {
+		return false
+	}
+	var l float64
+	if _, err := fmt.Sscanf(string(b), "%f", &l); err != nil {
+		return false
+	}
+	return l > float64(runtime.NumCPU())/3
 }
